@@ -128,10 +128,8 @@ func (s *Socket) RecvMsg(b []byte) (int, Msg, error) {
 	if err != nil {
 		return 0, msg, err
 	}
-	if flags&(syscall.MSG_TRUNC|syscall.MSG_CTRUNC) != 0 {
-		return 0, msg, errMessageTruncated
-	}
-	// parse oob msg
+	// parse oob msg first: descriptors carried by the message are already installed in this
+	// process, also when the message itself is going to be rejected
 	msgs, err := syscall.ParseSocketControlMessage(s.recvBuff[:oobn])
 	if err != nil {
 		return 0, msg, err
@@ -139,6 +137,12 @@ func (s *Socket) RecvMsg(b []byte) (int, Msg, error) {
 	msg, err = parseMsg(msgs)
 	if err != nil {
 		return 0, msg, err
+	}
+	if flags&(syscall.MSG_TRUNC|syscall.MSG_CTRUNC) != 0 {
+		for _, f := range msg.Fds {
+			syscall.Close(f)
+		}
+		return 0, Msg{}, errMessageTruncated
 	}
 	return n, msg, nil
 }
